@@ -15,3 +15,24 @@ package statsdaemon
 //@   trusted
 //@   modifies everything
 //@   preserves statsdaemon.Client, sender.Sender
+
+// ---- the relay's datagram size (C17) ------------------------------------------------------------------------------
+// The overflow handler takes the datagram built so far and, unless it says stop, gives back an empty buffer to
+// continue with (assumed of the handler: SendMetricsAsync's hands out sender.GetBuffer(), and buffers are reset
+// before they are put back into the pool).
+//@ functype overflowHandler(buf) sig func(*bytes.Buffer) (*bytes.Buffer, bool)
+//@   requires buf != nil
+//@   ensures  !result1 ==> result0 != nil && len(result0.buf) == 0
+//@   modifies everything
+//@   preserves statsdaemon.Client, sender.Sender
+// writeLine: a datagram handed to the overflow handler is no longer than the packet size, unless it consists of one
+// single line that is longer by itself; the same holds for the datagram under construction when writeLine returns.
+//@ pred dgramOK(buf *bytes.Buffer, line *bytes.Buffer, limit int) := buf != nil && line != nil && (len(buf.buf) <= limit || len(buf.buf) == len(line.buf))
+//@ func (*Client).processMetrics$3
+//@   may_panic
+//@   captures client != nil && line != nil && handler != nil
+//@   requires dgramOK(buf, line, client.packetSize)
+//@   callsite handler requires len(arg0.buf) <= client.packetSize || old(len(buf.buf) == len(line.buf))
+//@   ensures  dgramOK(buf, line, client.packetSize)
+//@   modifies everything
+//@   preserves statsdaemon.Client, sender.Sender
